@@ -47,11 +47,10 @@ MANIFEST = {
              "limit is stored. WRITER: Coq proofs over a model of DataWriterEntity::write_w_timestamp and of the "
              "KEEP_LAST step of its caller: over every history of DataWriter::write calls (set limits >= 0, depth >= 1) "
              "total samples, registered instances and samples per instance never exceed the limits; OutOfResources is "
-             "returned exactly when (iff) one of the three tests of the code is met; a refused write records no sample, "
-             "no sequence number and hands nothing to the transport writer; an accepted write records exactly one; a "
-             "KEEP_LAST replacement is never followed by a refusal. Recorded deviation (known finding, witness theorem "
-             "C19_writer_refused_registers_instance): a write refused for max_samples(_per_instance) leaves its new "
-             "instance registered, occupying a max_instances slot. Both models are tied to the code by exact comparison "
+             "returned exactly when (iff) one of the three tests of the code is met; a refused write changes nothing: no "
+             "sample, no sequence number, nothing handed to the transport writer and no instance record (the former "
+             "deviation C19-failed-write-registers-instance is fixed, 3010f06); an accepted write records exactly one; a "
+             "KEEP_LAST replacement is never followed by a refusal. Both models are tied to the code by exact comparison "
              "of every return value and of the state on generated histories evaluated inside Coq (harness rdr: real "
              "UserDefinedDataReader; harness c19w: real DataWriterEntity with a recording mock transport writer); the "
              "oracles C19_oracle_ok / C19W_oracle_ok judge the real code's own outputs. NOT covered: the "
@@ -64,7 +63,7 @@ MANIFEST = {
              "Observations reported, not judged by the oracle: writer `samples` bookkeeping is only ever reduced by the "
              "KEEP_LAST step, so a KEEP_ALL writer with max_samples(_per_instance) N refuses every write after N "
              "accepted ones for ever, also after acknowledgement or lifespan expiry; unregister keeps the instance "
-             "entry, so max_instances counts instances ever written; a sample already expired at write time is "
+             "entry (only its `registered` flag is cleared), so max_instances counts instances ever written; a sample already expired at write time is "
              "counted but never sent; a Rejected/NotAdded reader change has already updated the instance state (C22)."),
     "technique": "Coq proof (limit invariants by induction over operation histories; exact case analysis of add_reader_change and write_w_timestamp) + differential correspondence (reader and writer harness)",
 }
@@ -76,10 +75,10 @@ MANIFEST = {
 from vlib import core as _core  # noqa: E402
 
 CORR_MODULES = ["Cache.ReaderCorr", "Cache.WriterCorr"]
-W_KNOWN = {1: "C19-failed-write-registers-instance"}
+W_KNOWN = {}   # C19-failed-write-registers-instance was fixed in /repo (3010f06); its inputs stay in w_corpus()
 TRUSTED = list(_reader.TRUSTED) + [
     "theories/Cache/WriterModel.v is a hand transcription of DataWriterEntity::write_w_timestamp "
-    "(data_writer_entity.rs:70-168) and of the KEEP_LAST step of its caller (writer_methods.rs:355-405, branch "
+    "(data_writer_entity.rs:73-178) and of the KEEP_LAST step of its caller (writer_methods.rs:355-405, branch "
     "without the wait for acknowledgements); harness c19w.rs repeats that caller step on the real entity and "
     "uses a recording mock for the transport writer"]
 ASSUMPTIONS = list(_reader.ASSUMPTIONS) + [
@@ -187,7 +186,8 @@ def w_gen_case(r):
 
 def w_corpus():
     return [_reader.parse_line(x) for x in [
-        # a write refused for max_samples leaves instance 2 registered; instance 3 is then refused for max_instances
+        # regression (fixed finding C19-failed-write-registers-instance, 3010f06): the write of instance 2 is refused
+        # for max_samples and must not register it; instance 3 is refused for max_samples too, not max_instances
         "Q 0 1 2 -1 -1 ; A 1 101 10 10 ; A 2 102 20 20 ; A 3 103 30 30",
         # KEEP_LAST 2 = max_samples_per_instance: the oldest is replaced, never OutOfResources
         "Q 2 -1 -1 2 -1 ; A 1 101 10 10 ; A 1 102 20 20 ; A 1 103 30 30 ; A 1 104 40 40",
